@@ -876,11 +876,12 @@ pub fn build(quick: bool) -> Check {
         families: {
             let mut f = families;
             f.push(Box::new(super::aftermath::Aftermath { prop: "C06" }));
+            f.push(Box::new(super::context::BoundaryCells { prop: "C06", bin: false }));
             for d in 1..=(if quick { 3 } else { 4 }) {
                 f.push(Box::new(super::context::ContextWalks { prop: "C06", depth: d, start_bin: false }));
             }
             f
         },
-        required: vec!["aftermath_recovered", "context_walks", "seam_histories", "scalar_values", "dates", "times_of_day", "durations", "strings_beyond_65535", "row_arrangements", "text_recoveries"],
+        required: vec!["aftermath_recovered", "context_walks", "boundary_cells", "seam_histories", "scalar_values", "dates", "times_of_day", "durations", "strings_beyond_65535", "row_arrangements", "text_recoveries"],
     }
 }
